@@ -2,6 +2,7 @@
   C19 — Prefetch is single-flight and never delays a cache hit.
   Model: MosVerif/Model/Prefetch.lean (on top of C08's cache model), lemmas: MosVerif/Lemmas/Prefetch.lean.
 -/
+import MosVerif.Lemmas.TranslatedC19
 import MosVerif.Lemmas.Prefetch
 import MosVerif.Lemmas.PrefetchE2E
 import MosVerif.Generated.Facts
